@@ -74,6 +74,7 @@ func propC08() *PropSpec {
 				return b
 			}
 			js = append(js, jobsN(".", "VerifNumberExact", pick(rng(1, 6), rng(1, 8)), "Number(in,prec<=0), all lexemes incl. exponent: grammar, exact value, length, guard bytes")...)
+			js = append(js, jobsN(".", "VerifNumberHugePrec", pick(rng(1, 4), rng(1, 5)), "Number/Decimal with a precision far beyond the lexeme (up to MaxInt): no overflow, exact value")...)
 			{
 				var shapes []int
 				mi, mf := 3, 5
@@ -147,6 +148,7 @@ func propC06() *PropSpec {
 			js = append(js, jobsN("xml", "VerifXMLMixed", pick(rng(1, 2), rng(1, 3)), "<a>H1<b>H2</b>H3</a>, holes up to n bytes")...)
 			js = append(js, jobsN("xml", "VerifXMLAttr", pick(rng(0, 4), rng(0, 5)), "<a b=QVQ/>, V = n bytes, both quote kinds")...)
 			js = append(js, jobsN("xml", "VerifXMLCDATA", pick(rng(0, 3), rng(0, 4)), "<a>H1<![CDATA[C]]>H2</a>, C = n bytes")...)
+			js = append(js, jobsN("xml", "VerifXMLUnits", pick(rng(1, 4), rng(1, 5)), "<a>U1..Un</a>, Ui out of 10 units: brackets, references to > < &, CDATA delimiters (]]> fragments)")...)
 			js = append(js, jobsN("xml", "VerifXMLBetween", pick(rng(1, 3), rng(1, 4)), "<a>H1 ITEM H2</a>, ITEM in comment/PI/empty element/empty CDATA")...)
 			js = append(js, jobsN("xml", "VerifXMLTextAny", pick(rng(1, 2), rng(1, 3)), "<r><x>H</x><y>1</y></r>, H = n arbitrary bytes (256 values)")...)
 			js = append(js, jobsN("xml", "VerifXMLAttrAny", pick(rng(1, 2), rng(1, 3)), "<a b=\"V\"/>, V = n arbitrary bytes (256 values)")...)
@@ -264,6 +266,7 @@ func propC10() *PropSpec {
 			js = append(js, jobsN("css", "VerifCSSTotal", pick(rng(0, 2), rng(0, 3)), "css.Minify(arbitrary bytes)")...)
 			js = append(js, jobsN("html", "VerifHTMLTotal", pick(rng(0, 3), rng(0, 4)), "html.Minify(arbitrary bytes)")...)
 			js = append(js, jobsN("css", "VerifCSSDeclTotal", pick(rng(0, 1), rng(0, 2)), "css: a{P:F(ARG<end> for 14 properties x 10 functions x 5 endings, ARG = n bytes over a punctuation alphabet")...)
+			js = append(js, jobsN("css", "VerifCSSKeywordTotal", pick(rng(1, 3), rng(1, 4)), "css: a{P:W1..Wn} for 16 shorthand properties x 24 (n>=3: 12) keywords/values/separators: no panic")...)
 			js = append(js, jobsN("svg", "VerifSVGTruncated", []int{0}, "svg: every prefix of document templates")...)
 			js = append(js, jobsN("svg", "VerifSVGTotal", pick(rng(0, 4), rng(0, 5)), "svg.Minify(arbitrary bytes)")...)
 			js = append(js, jobsN("html", "VerifHTMLAttrURL", pick(rng(4, 5), rng(4, 6)), "html: <tag urlattr=\"V\">, V = n bytes over a URL-scheme alphabet (panic freedom on template-shaped input)")...)
@@ -292,6 +295,7 @@ func propC09() *PropSpec {
 			}
 			js = append(js, jobsN("json", "VerifJSONReaccept", pick(rng(0, 5), rng(0, 6)), "json: accepted => output accepted again (arbitrary bytes)")...)
 			js = append(js, jobsN("xml", "VerifXMLReaccept", pick(rng(0, 5), rng(0, 6)), "xml: accepted => output accepted again (arbitrary bytes)")...)
+			js = append(js, jobsN("xml", "VerifXMLUnits", rng(1, 3), "xml: output well-formed for ]]> fragments in text and across CDATA sections")...)
 			js = append(js, jobsN("json", "VerifJSONValue", pick(rng(1, 4), rng(1, 5)), "json: RFC-valid input => RFC-valid output (reference recogniser)")...)
 			js = append(js, jobsN("xml", "VerifXMLText", pick(rng(0, 2), rng(0, 3)), "xml: well-formed input => well-formed output (reference reader)")...)
 			js = append(js, jobsN("xml", "VerifXMLAttr", pick(rng(0, 3), rng(0, 4)), "xml: well-formed input => well-formed output (reference reader)")...)
@@ -401,6 +405,8 @@ func propC01() *PropSpec {
 			js = append(js, jobsN("js", "VerifJSNested", pick([]int{0}, rng(0, 3)), "x=(C?X:Y) / (X&&Y) / (X||Y) / !(X??Y) with one operand of depth 1: grouping inside the rewrites")...)
 			js = append(js, Job{Pkg: "js", Fn: "VerifJSLitTwin", N: 0, ExpectFail: true, Desc: "vacuity twin (kernels)"})
 			js = append(js, Job{Pkg: "js", Fn: "VerifJSEvalTwin", N: 0, ExpectFail: true, Desc: "vacuity twin (evaluator)"})
+			js = append(js, jobsN("js", "VerifJSArith", pick([]int{1, 2}, []int{1, 2, 3}), "x = T1 o1 T2 .. with operands a / numbers / digit strings, operators + - *, optional parentheses; reference ToNumber/ToString arithmetic")...)
+			js = append(js, jobsN("js", "VerifJSCallOrder", []int{0, 1}, "host calls inside 52 expression wrappers x 18 statement contexts, and in parameter defaults / declaration lists: never dropped, duplicated or reordered")...)
 			return js
 		},
 	}
